@@ -144,7 +144,14 @@ func AKIExtension(form string, signer *x509.Certificate) (pkix.Extension, bool) 
 		TLV(0xa1, TLV(0xa4, signer.RawIssuer)),
 		TLV(0x82, DERBigInt(signer.SerialNumber)[2:]),
 	}
+	serial := TLV(0x82, DERBigInt(signer.SerialNumber)[2:])
 	switch form {
+	case "uri-serial": // authorityCertIssuer names the issuer by a URI only (legal: GeneralNames, not necessarily a directoryName)
+		parts = [][]byte{TLV(0xa1, TLV(0x86, []byte("http://ca.example.org/issuing-ca"))), serial}
+	case "dns-serial":
+		parts = [][]byte{TLV(0xa1, TLV(0x82, []byte("ca.example.org"))), serial}
+	case "emptynames-serial":
+		parts = [][]byte{TLV(0xa1), serial}
 	case "keyid":
 		parts = [][]byte{keyid}
 	case "issuerserial":
